@@ -108,7 +108,7 @@ def step : List String → String
   -- remaining tree operations (Model/BinImageOps.lean)
   | "join" :: toks =>     -- join_images(): ok:<len> <number of sub-images> <hex of export()>
     (match parseImg 64 toks with
-     | some (i, []) => resLine (fun (j : Img) => s!"{j.len} {j.children.length} " ++ (match j.export with | .ok b => toHex b | .error e => e.tag)) i.joinImages
+     | some (i, []) => resLine (fun (j : Img) => s!"{j.len} {j.children.length} " ++ (match j.export with | .ok b => (if b.isEmpty then "-" else toHex b) | .error e => e.tag)) i.joinImages
      | _ => "bad-op")
   | "getaddr" :: a :: toks =>   -- get_image_by_absolute_address(a): ok:<path of child indices|-> <absolute address of the image found> <its length>
     (match parseNat a, parseImg 64 toks with
